@@ -150,10 +150,10 @@ Hypothesis L4 : L mod 4 = 0.
 Hypothesis L24 : 24 <= L.
 Hypothesis Lmax : L <= MaxCookieLen.
 Hypothesis Lfit : 1 <= max_cookies 32 L.
-Hypothesis mk_len : forall id v n a b, zlen (mk_cookie id v n a b) = L.
+Hypothesis mk_len : forall id v n a b, zlen a = 32 -> zlen b = 32 -> zlen (mk_cookie id v n a b) = L.
 Hypothesis cid_mk : forall id v n a b, cid (mk_cookie id v n a b) = n.
 Hypothesis kid_mk : forall id v n a b, cookie_keyid (mk_cookie id v n a b) = id.
-Hypothesis open_mk : forall id v n a b, open_cookie v (mk_cookie id v n a b) = Some (a, b).
+Hypothesis open_mk : forall id v n a b, zlen a = 32 -> zlen b = 32 -> open_cookie v (mk_cookie id v n a b) = Some (a, b).
 
 (* the key provider, by the facts C12 proves of it: [plog] the keys it has handed out,
    [PInv T] its invariant when T is the latest clock reading *)
@@ -198,8 +198,8 @@ Proof. intros Hi Hn [k [m [H1 [H2 H3]]]]. exists k, m. repeat split; [apply Hi, 
 Lemma make_length k from a b n : length (Make k from a b n) = n.
 Proof. unfold make_cookies. rewrite map_length, seq_length. reflexivity. Qed.
 
-Lemma make_len k from a b n : Forall (fun x => zlen x = L) (Make k from a b n).
-Proof. unfold make_cookies. apply Forall_forall. intros x Hx. apply in_map_iff in Hx as [i [<- _]]. apply mk_len. Qed.
+Lemma make_len k from a b n : zlen a = 32 -> zlen b = 32 -> Forall (fun x => zlen x = L) (Make k from a b n).
+Proof. intros Ha Hb. unfold make_cookies. apply Forall_forall. intros x Hx. apply in_map_iff in Hx as [i [<- _]]. apply mk_len; assumption. Qed.
 
 Lemma make_cid k from a b n : map cid (Make k from a b n) = seq from n.
 Proof.
@@ -242,7 +242,7 @@ Lemma ntp_server_spec sv now hdr uid c nonce a b p rnonce rhdr T r sv2 :
      zlen sent = reply_count (1 + Z.of_nat p) 32 L).
 Proof.
   intros HP HT [k [n [Hk [Hn Hc]]]] Hh Hu Hno Ha Hb Hrn Hrh Hfit H.
-  assert (Hcl : zlen c = L) by (rewrite Hc; apply mk_len).
+  assert (Hcl : zlen c = L) by (rewrite Hc; apply mk_len; assumption).
   destruct (authenticate_request seal aopen seal_len open_seal L L4 hdr uid c nonce a p Hh Hu Hcl Hno Ha Hfit)
     as [dq [Ed [Eu [Ec [Ep _]]]]].
   unfold ntp_server in H. rewrite Ed, Ec in H.
@@ -251,11 +251,11 @@ Proof.
   assert (key = k).
   { rewrite Hc, kid_mk in Eg. destruct (P_get T _ _ _ _ HP Eg) as [Hid Hin].
     apply (P_uniq T (sv_prov sv)); assumption. }
-  subst key. rewrite Hc, open_mk in H. rewrite <- Hc in H.
+  subst key. rewrite Hc, (open_mk _ _ _ _ _ Ha Hb) in H. rewrite <- Hc in H.
   destruct (pcurrent (sv_prov sv) now) as [[cur p']|] eqn:Ecur; [|discriminate].
   destruct (server_reply_wire seal aopen seal_len open_seal L L4 L24 Lfit hdr uid c nonce a b p
               (Make cur (sv_next sv) a b) rnonce rhdr Hh Hu Hcl Hno Ha Hb Hrn Hrh Hfit
-              ltac:(intros m; split; [apply make_length|apply make_len])) as [Es [Ef Ez]].
+              ltac:(intros m; split; [apply make_length|apply make_len; assumption])) as [Es [Ef Ez]].
   cbv zeta in Es. rewrite Es in H. right. exists cur, p'. split; [reflexivity|]. cbv zeta.
   rewrite Ep in H.
   assert (Hn' : Z.to_nat (zlen [c] + Z.of_nat p) = S p) by (unfold zlen; cbn [length]; lia).
@@ -294,7 +294,7 @@ Proof.
     by (rewrite Hp in Hall; inversion Hall; assumption).
   assert (Hrest : Forall (made_for (sv_prov sv1) (sv_next sv1) (c2s d) (s2c d)) rest)
     by (rewrite Hp in Hall; apply Forall_tl in Hall; exact Hall).
-  assert (Hcl : zlen c = L) by (destruct Hmade_c as [k [n [_ [_ E]]]]; rewrite E; apply mk_len).
+  assert (Hcl : zlen c = L) by (destruct Hmade_c as [k [n [_ [_ E]]]]; rewrite E; apply mk_len; assumption).
   destruct (client_request_wire seal seal_len L Lfit d c rest (o_uid o) (o_nonce o) (o_hdr o) Hp Hcl Hk1 Hu Hn Hh)
     as [Ereq Efit]. cbv zeta in Ereq, Efit.
   set (p := placeholders_at L (zlen (pool d))) in *.
@@ -347,7 +347,7 @@ Proof.
       exact (Hdone_lost sv1 0%nat _ HPnow (incl_refl _) (eq_sym (Nat.add_0_r _)) Es (or_introl Eo)).
     + cbv zeta in Er, Erf, Ez. destruct (P_cur _ _ _ _ _ HP HT Ecur) as [HP' [Hcur [Hincl _]]].
       set (sent := firstn (Z.to_nat (reply_count (1 + Z.of_nat p) 32 L)) (Make cur (sv_next sv1) (c2s d) (s2c d) (S p))) in *.
-      assert (Hsent_len : Forall (fun x => zlen x = L) sent) by (apply Forall_firstn', make_len).
+      assert (Hsent_len : Forall (fun x => zlen x = L) sent) by (apply Forall_firstn', make_len; assumption).
       rewrite Er in H.
       rewrite (client_process_wire seal aopen seal_len open_seal L L4 L24 Lfit (o_rhdr o) (o_uid o) (o_rnonce o) (s2c d)
                  sent c1 Hrh Hu Hrn Hk2 Hsent_len Lmax Erf) in H.
@@ -419,7 +419,7 @@ Proof.
       assert (Ecs : exists x r, cookies = x :: r) by (unfold cookies, make_cookies, keCookies; cbn [seq map]; eauto).
       destruct Ecs as [x [r Ecs]].
       assert (Hlen_ok : forallb cookie_len_ok cookies = true).
-      { apply forallb_forall. intros y Hy. pose proof (make_len k nx k1 k2 keCookies) as Hf.
+      { apply forallb_forall. intros y Hy. pose proof (make_len k nx k1 k2 keCookies Hk1 Hk2) as Hf.
         rewrite Forall_forall in Hf. unfold cookie_len_ok. rewrite (Hf y Hy). apply Z.leb_le. exact Lmax. }
       assert (Ef : fetch (cs_client s) (KeOk cookies k1 k2) =
                    Some ({| pool := cookies; c2s := k1; s2c := k2 |}, {| pool := r; c2s := k1; s2c := k2 |})).
@@ -445,16 +445,11 @@ Proof.
         cbn [map]. intros E. exfalso. revert E. generalize (map cid (cs_sent s)) (cid x). clear.
         intros l n E. assert (Hl : length (n :: l) = length l) by (rewrite E; reflexivity). cbn in Hl. lia. }
       split; [intros _; split; [reflexivity|discriminate]|].
-      assert (Hfacts : (ob_sent ob = None -> cs_sent s' = cs_sent s) /\
-            (ob_sent ob <> None -> exists c0, cs_sent s' = c0 :: cs_sent s /\
-                                             (pool (cs_client s) = [] \/ exists r0, pool (cs_client s) = c0 :: r0)) /\
-            (ob_intact ob = true -> ob_nosend ob = false /\ ob_sent ob <> None)).
       { rewrite Hsent. destruct (ob_nosend ob) eqn:En.
         - split; [reflexivity|]. split; [intros Hx; exfalso; apply Hx, Hns1; reflexivity|].
           intros Hi. specialize (Hin Hi). discriminate.
         - split; [intros Hx; exfalso; exact (Hns2 eq_refl Hx)|].
           split; [intros _; eexists; split; [reflexivity|left; reflexivity]|]. intros _. split; [reflexivity|apply Hns2; reflexivity]. }
-      exact Hfacts.
     + (* no key exchange possible *)
       assert (Ef : fetch (cs_client s) KeErr = None) by (unfold fetch; rewrite Ep; reflexivity).
       rewrite Ef in H. injection H as Es Eo. subst s' ob.
@@ -497,16 +492,129 @@ Proof.
       cbn [map]. intros E. exfalso. revert E. generalize (map cid (cs_sent s)) (cid c). clear.
       intros l n E. assert (Hl : length (n :: l) = length l) by (rewrite E; reflexivity). cbn in Hl. lia. }
     split; [intros E; rewrite Hrk in E; discriminate|].
-      assert (Hfacts : (ob_sent ob = None -> cs_sent s' = cs_sent s) /\
-            (ob_sent ob <> None -> exists c0, cs_sent s' = c0 :: cs_sent s /\
-                                             (pool (cs_client s) = [] \/ exists r0, pool (cs_client s) = c0 :: r0)) /\
-            (ob_intact ob = true -> ob_nosend ob = false /\ ob_sent ob <> None)).
       { rewrite Hsent. destruct (ob_nosend ob) eqn:En.
         - split; [reflexivity|]. split; [intros Hx; exfalso; apply Hx, Hns1; reflexivity|].
           intros Hi. specialize (Hin Hi). discriminate.
         - split; [intros Hx; exfalso; exact (Hns2 eq_refl Hx)|].
           split; [intros _; eexists; split; [reflexivity|right; eexists; reflexivity]|]. intros _. split; [reflexivity|apply Hns2; reflexivity]. }
-    exact Hfacts.
+Qed.
+
+Lemma client_process_keys (aopen0 : bytes -> bytes -> bytes -> bytes -> option bytes) reply k u c1 a :
+  client_process aopen0 reply k u c1 = Ok a -> c2s a = c2s c1 /\ s2c a = s2c c1.
+Proof.
+  unfold client_process. destruct (decode_packet reply) as [dr| | |]; cbn [obind]; try discriminate.
+  destruct (d_uid dr); try discriminate. destruct (negb _); try discriminate.
+  destruct (authenticate aopen0 reply dr k) as [cs| | |]; cbn [obind]; try discriminate.
+  intros E. injection E as <-. split; reflexivity.
+Qed.
+
+(* ---- the server's part of an exchange ---- *)
+Definition reply_good (s s' : csys pstate) (o : cop) (req reply : bytes) (cs : list bytes) (cur : skey) : Prop :=
+  exists dq,
+    decode_packet req = Ok dq /\
+    (* one cookie per cookie or placeholder requested - as many as fit (reply_count) *)
+    zlen cs = reply_count (server_issue_count dq) 32 L /\
+    (* well formed, within the maximum packet size, the requester can open it *)
+    reply = reply_wire seal (o_rhdr o) (o_uid o) (o_rnonce o) (s2c (cs_client s')) cs /\
+    zlen reply <= MaxPacketLen /\
+    (* every cookie is sealed under the provider's current key, which Get hands out at this time,
+       and opens to the client's session keys; every cookie is new *)
+    Forall (fun c => cookie_keyid c = sk_id cur /\
+                     open_cookie (sk_val cur) c = Some (c2s (cs_client s'), s2c (cs_client s')) /\
+                     (sv_next (cs_server s) <= cid c)%nat /\ zlen c = L) cs /\
+    pget (sv_prov (cs_server s')) (sk_id cur) (cs_now s') = Some cur /\
+    NoDup (map cid cs) /\
+    (* ... newer than every cookie sent so far, this call's included *)
+    (exists B, (sv_next (cs_server s) <= B)%nat /\ Forall (fun c => (B <= cid c)%nat) cs /\
+               Forall (fun y => (cid y < B)%nat) (cs_sent s')).
+
+Lemma cexchange_reply sent0 now sv1 rekeyed (d c1 : client) o c rest T s' ob reply cs cur :
+  pool d = c :: rest -> c1 = {| pool := rest; c2s := c2s d; s2c := s2c d |} ->
+  PInv T (sv_prov sv1) -> T <= now ->
+  Forall (made_for (sv_prov sv1) (sv_next sv1) (c2s d) (s2c d)) (pool d) ->
+  zlen (c2s d) = 32 -> zlen (s2c d) = 32 -> wf_op o ->
+  Forall (fun y => (cid y < sv_next sv1)%nat) sent0 ->
+  Cexchange sent0 now sv1 rekeyed d c1 o = Some (s', ob) ->
+  ob_reply ob = Some (reply, cs, cur) ->
+  exists req dq,
+    ob_sent ob = Some req /\ decode_packet req = Ok dq /\
+    zlen cs = reply_count (server_issue_count dq) 32 L /\
+    reply = reply_wire seal (o_rhdr o) (o_uid o) (o_rnonce o) (s2c d) cs /\
+    zlen reply <= MaxPacketLen /\
+    Forall (fun x => cookie_keyid x = sk_id cur /\ open_cookie (sk_val cur) x = Some (c2s d, s2c d) /\
+                     (sv_next sv1 <= cid x)%nat /\ zlen x = L) cs /\
+    pget (sv_prov (cs_server s')) (sk_id cur) now = Some cur /\
+    NoDup (map cid cs) /\
+    c2s (cs_client s') = c2s d /\ s2c (cs_client s') = s2c d /\ cs_now s' = now /\
+    Forall (fun y => (cid y < sv_next sv1)%nat) (cs_sent s').
+Proof.
+  intros Hp Hc1 HP HT Hall Hk1 Hk2 [Hage [Hu [Hn [Hh [Hrn [Hrh _]]]]]] Hsent0 H Hrep.
+  assert (Hsentc : Forall (fun y => (cid y < sv_next sv1)%nat) (c :: sent0)).
+  { constructor; [|exact Hsent0]. rewrite Hp in Hall. inversion Hall as [|? ? [k [n [_ [Hn' E]]]] _]; subst.
+    rewrite cid_mk. exact Hn'. }
+  assert (Hmade_c : made_for (sv_prov sv1) (sv_next sv1) (c2s d) (s2c d) c)
+    by (rewrite Hp in Hall; inversion Hall; assumption).
+  assert (Hcl : zlen c = L) by (destruct Hmade_c as [k [n [_ [_ E]]]]; rewrite E; apply mk_len; assumption).
+  destruct (client_request_wire seal seal_len L Lfit d c rest (o_uid o) (o_nonce o) (o_hdr o) Hp Hcl Hk1 Hu Hn Hh)
+    as [Ereq Efit]. cbv zeta in Ereq, Efit.
+  set (p := placeholders_at L (zlen (pool d))) in *.
+  destruct (authenticate_request seal aopen seal_len open_seal L L4 (o_hdr o) (o_uid o) c (o_nonce o) (c2s d) p
+              Hh Hu Hcl Hn Hk1 Efit) as [dq [Ed [Eu [Ec [Ep _]]]]].
+  assert (Hcount : server_issue_count dq = 1 + Z.of_nat p)
+    by (unfold server_issue_count; rewrite Ec, Ep; unfold zlen; cbn [length]; lia).
+  unfold cexchange in H. rewrite Ereq, Hp in H.
+  assert (Hmain : forall r sv2 c2,
+     Ntp_server sv1 now (request_wire seal (o_hdr o) (o_uid o) c (o_nonce o) (c2s d) p) (o_rnonce o) (o_rhdr o) = Some (r, sv2) ->
+     r = Some (reply, cs, cur) ->
+     c2s (cs_client s') = c2s d -> s2c (cs_client s') = s2c d -> cs_server s' = sv2 -> cs_now s' = now ->
+     ob_sent ob = Some (request_wire seal (o_hdr o) (o_uid o) c (o_nonce o) (c2s d) p) ->
+     cs_sent s' = c :: sent0 ->
+     c2 = tt ->
+     exists req dq0,
+       ob_sent ob = Some req /\ decode_packet req = Ok dq0 /\
+       zlen cs = reply_count (server_issue_count dq0) 32 L /\
+       reply = reply_wire seal (o_rhdr o) (o_uid o) (o_rnonce o) (s2c d) cs /\
+       zlen reply <= MaxPacketLen /\
+       Forall (fun x => cookie_keyid x = sk_id cur /\ open_cookie (sk_val cur) x = Some (c2s d, s2c d) /\
+                        (sv_next sv1 <= cid x)%nat /\ zlen x = L) cs /\
+       pget (sv_prov (cs_server s')) (sk_id cur) now = Some cur /\
+       NoDup (map cid cs) /\
+       c2s (cs_client s') = c2s d /\ s2c (cs_client s') = s2c d /\ cs_now s' = now /\
+       Forall (fun y => (cid y < sv_next sv1)%nat) (cs_sent s')).
+  { intros r sv2 c2 En Er Ea Eb Esv Enow Esent Ecs _.
+    destruct (ntp_server_spec sv1 now (o_hdr o) (o_uid o) c (o_nonce o) (c2s d) (s2c d) p (o_rnonce o) (o_rhdr o)
+                T r sv2 HP HT Hmade_c Hh Hu Hn Hk1 Hk2 Hrn Hrh Efit En) as [[-> _]|[cur' [p' [Ecur [Er' [Esv' [Erf Ez]]]]]]];
+      [discriminate|].
+    cbv zeta in Er', Erf, Ez.
+    set (sent := firstn (Z.to_nat (reply_count (1 + Z.of_nat p) 32 L)) (Make cur' (sv_next sv1) (c2s d) (s2c d) (S p))) in *.
+    rewrite Er in Er'. injection Er' as E1 E2 E3. subst reply cs cur'. unfold sent in *. clear sent.
+    destruct (P_cur _ _ _ _ _ HP HT Ecur) as [HP' [Hcur [Hincl Hget]]].
+    exists (request_wire seal (o_hdr o) (o_uid o) c (o_nonce o) (c2s d) p), dq.
+    rewrite Hcount. repeat split; try assumption; try reflexivity; try (rewrite Ecs; exact Hsentc).
+    - apply Forall_firstn'. unfold make_cookies. apply Forall_forall. intros x Hx.
+      apply in_map_iff in Hx as [i [<- Hi]]. apply in_seq in Hi. rewrite kid_mk, (open_mk _ _ _ _ _ Hk1 Hk2), cid_mk, (mk_len _ _ _ _ _ Hk1 Hk2). repeat split; try reflexivity. exact (proj1 Hi).
+    - rewrite Esv, Esv'. exact Hget.
+    - rewrite <- firstn_map, make_cid. rewrite firstn_seq.
+      + apply seq_NoDup.
+      + assert (Hb : 1 <= reply_count (1 + Z.of_nat p) 32 L <= 1 + Z.of_nat p) by (apply reply_count_bounds; clear; lia).
+        clearbody p. clear - Hb. lia. }
+  destruct (o_fate o) eqn:Ef.
+  - destruct (Ntp_server sv1 now _ (o_rnonce o) (o_rhdr o)) as [[r sv2]|] eqn:En; [|discriminate].
+    destruct r as [[[reply' cs'] cur']|].
+    + injection H as Es Eo. subst s' ob. cbn [ob_reply] in Hrep. injection Hrep as -> -> ->.
+      eapply (Hmain _ sv2 tt eq_refl eq_refl); try reflexivity.
+      * cbn [cs_client]. destruct (client_process _ _ _ _ _) as [a| | |] eqn:Ecp;
+          try (subst c1; reflexivity). rewrite (proj1 (client_process_keys _ _ _ _ _ _ Ecp)). subst c1. reflexivity.
+      * cbn [cs_client]. destruct (client_process _ _ _ _ _) as [a| | |] eqn:Ecp;
+          try (subst c1; reflexivity). rewrite (proj2 (client_process_keys _ _ _ _ _ _ Ecp)). subst c1. reflexivity.
+    + injection H as Es Eo. subst ob. cbn in Hrep. discriminate.
+  - injection H as Es Eo. subst ob. cbn in Hrep. discriminate.
+  - destruct (Ntp_server sv1 now _ (o_rnonce o) (o_rhdr o)) as [[r sv2]|] eqn:En; [|discriminate].
+    destruct r as [[[reply' cs'] cur']|].
+    + injection H as Es Eo. subst s' ob. cbn [ob_reply] in Hrep. injection Hrep as -> -> ->.
+      eapply (Hmain _ sv2 tt eq_refl eq_refl); try reflexivity; subst c1; reflexivity.
+    + injection H as Es Eo. subst ob. cbn in Hrep. discriminate.
+  - injection H as Es Eo. subst ob. cbn in Hrep. discriminate.
 Qed.
 
 (* runs *)
@@ -560,6 +668,157 @@ Qed.
 
 Lemma pool_len s : length (pool (cs_client s)) = length (s_pool (alpha s)).
 Proof. unfold alpha. cbn [s_pool]. rewrite map_length. reflexivity. Qed.
+
+(* the reply of the server in a call of the concrete system *)
+Theorem concrete_reply s o s' ob reply cs cur :
+  creach s -> wf_op o -> Cstep s o = Some (s', ob) -> ob_reply ob = Some (reply, cs, cur) ->
+  exists req, ob_sent ob = Some req /\ reply_good s s' o req reply cs cur.
+Proof.
+  intros Hr Hwf H Hrep. destruct (creach_inv s Hr) as [[HP [Hall Hkeys]] _].
+  pose proof Hwf as [Hage [_ [_ [_ [_ [_ Hke]]]]]].
+  unfold cstep in H.
+  set (now := cs_now s + o_age o) in *.
+  set (sv0 := {| sv_prov := sv_prov (cs_server s); sv_next := (sv_next (cs_server s) + o_skip o)%nat |}) in *.
+  assert (HT : cs_now s <= now) by (unfold now; lia).
+  assert (Hfin : forall (sv1 : server pstate) (d : client),
+     (sv_next (cs_server s) <= sv_next sv1)%nat ->
+     (exists req dq,
+       ob_sent ob = Some req /\ decode_packet req = Ok dq /\
+       zlen cs = reply_count (server_issue_count dq) 32 L /\
+       reply = reply_wire seal (o_rhdr o) (o_uid o) (o_rnonce o) (s2c d) cs /\
+       zlen reply <= MaxPacketLen /\
+       Forall (fun x => cookie_keyid x = sk_id cur /\ open_cookie (sk_val cur) x = Some (c2s d, s2c d) /\
+                        (sv_next sv1 <= cid x)%nat /\ zlen x = L) cs /\
+       pget (sv_prov (cs_server s')) (sk_id cur) now = Some cur /\
+       NoDup (map cid cs) /\
+       c2s (cs_client s') = c2s d /\ s2c (cs_client s') = s2c d /\ cs_now s' = now /\
+       Forall (fun y => (cid y < sv_next sv1)%nat) (cs_sent s')) ->
+     exists req, ob_sent ob = Some req /\ reply_good s s' o req reply cs cur).
+  { intros sv1 d Hle [req [dq [E1 [E2 [E3 [E4 [E5 [E6 [E7 [E8 [E9 [E10 [E11 E12]]]]]]]]]]]]].
+    exists req. split; [exact E1|]. exists dq. rewrite E9, E10, E11.
+    split; [exact E2|]. split; [exact E3|]. split; [exact E4|]. split; [exact E5|].
+    split; [eapply Forall_mono; [|exact E6]; intros x [A [B [C D]]]; repeat split; try assumption; lia|].
+    split; [exact E7|]. split; [exact E8|].
+    exists (sv_next sv1). split; [exact Hle|]. split; [|exact E12].
+    eapply Forall_mono; [|exact E6]. intros x [_ [_ [C _]]]. exact C. }
+  assert (Hsent_lt : Forall (fun y => (cid y < sv_next (cs_server s))%nat) (cs_sent s)).
+  { destruct (creach_inv s Hr) as [_ Hreach]. pose proof (reachable_inv _ id_inj L _ Hreach) as [_ [_ [_ [Hiss _]]]].
+    apply Forall_forall. intros y Hy.
+    destruct (Hiss (cid y)) as [k [Hk E]]; [right; unfold alpha; cbn [s_sent]; apply in_map; exact Hy|].
+    cbn in E. unfold alpha in Hk. cbn [s_next] in Hk. lia. }
+  destruct (pool (cs_client s)) as [|c rest] eqn:Ep.
+  - destruct (o_ke o) as [[k1 k2]|] eqn:Eke.
+    + destruct Hke as [Hk1 Hk2].
+      unfold key_exchange in H. cbn [sv_prov sv_next sv0 fst snd] in H.
+      destruct (pcurrent (sv_prov (cs_server s)) now) as [[k p']|] eqn:Ecur; [|discriminate].
+      destruct (P_cur _ _ _ _ _ HP HT Ecur) as [HP' [Hk [Hincl _]]].
+      set (nx := (sv_next (cs_server s) + o_skip o)%nat) in *.
+      set (cookies := Make k nx k1 k2 keCookies) in *.
+      assert (Ecs : exists x r, cookies = x :: r) by (unfold cookies, make_cookies, keCookies; cbn [seq map]; eauto).
+      destruct Ecs as [x [r Ecs]].
+      assert (Hlen_ok : forallb cookie_len_ok cookies = true).
+      { apply forallb_forall. intros y Hy. pose proof (make_len k nx k1 k2 keCookies Hk1 Hk2) as Hf.
+        rewrite Forall_forall in Hf. unfold cookie_len_ok. rewrite (Hf y Hy). apply Z.leb_le. exact Lmax. }
+      assert (Ef : fetch (cs_client s) (KeOk cookies k1 k2) =
+                   Some ({| pool := cookies; c2s := k1; s2c := k2 |}, {| pool := r; c2s := k1; s2c := k2 |})).
+      { unfold fetch. rewrite Ep. rewrite Ecs in Hlen_ok |- *. rewrite Hlen_ok. reflexivity. }
+      rewrite Ef in H.
+      apply (Hfin {| sv_prov := p'; sv_next := (nx + keCookies)%nat |} {| pool := cookies; c2s := k1; s2c := k2 |});
+        [cbn [sv_next]; unfold nx; lia|].
+      exact (cexchange_reply (cs_sent s) now {| sv_prov := p'; sv_next := (nx + keCookies)%nat |} true
+               {| pool := cookies; c2s := k1; s2c := k2 |} _ o x r now s' ob reply cs cur
+               Ecs eq_refl HP' (Z.le_refl _) (make_made p' k nx k1 k2 keCookies Hk) Hk1 Hk2 Hwf
+               ltac:(eapply Forall_mono; [|exact Hsent_lt]; cbn [sv_next]; unfold nx; intros; lia) H Hrep).
+    + assert (Ef : fetch (cs_client s) KeErr = None) by (unfold fetch; rewrite Ep; reflexivity).
+      rewrite Ef in H. injection H as Es Eo. subst ob. cbn in Hrep. discriminate.
+  - assert (Ef : fetch (cs_client s) KeErr =
+                 Some (cs_client s, {| pool := rest; c2s := c2s (cs_client s); s2c := s2c (cs_client s) |}))
+      by (unfold fetch; rewrite Ep; cbv beta iota; rewrite Ep; reflexivity).
+    rewrite Ef in H.
+    destruct (Hkeys ltac:(congruence)) as [Hk1 Hk2].
+    assert (Hall0 : Forall (made_for (sv_prov sv0) (sv_next sv0) (c2s (cs_client s)) (s2c (cs_client s))) (pool (cs_client s))).
+    { rewrite Ep. eapply Forall_mono; [|exact Hall]. intros y Hy. eapply made_for_mono; [apply incl_refl| |exact Hy]. cbn. lia. }
+    apply (Hfin sv0 (cs_client s)); [cbn [sv0 sv_next]; lia|].
+    exact (cexchange_reply (cs_sent s) now sv0 false (cs_client s) _ o c rest (cs_now s) s' ob reply cs cur
+             Ep eq_refl HP HT Hall0 Hk1 Hk2 Hwf
+             ltac:(eapply Forall_mono; [|exact Hsent_lt]; cbn [sv0 sv_next]; intros; lia) H Hrep).
+Qed.
+
+(* the request of a call *)
+Lemma cexchange_sent sent0 now sv1 rekeyed (d c1 : client) o c rest s' ob req :
+  pool d = c :: rest ->
+  Forall (fun x => zlen x = L) (pool d) -> zlen (c2s d) = 32 -> wf_op o ->
+  Cexchange sent0 now sv1 rekeyed d c1 o = Some (s', ob) -> ob_sent ob = Some req ->
+  req = request_wire seal (o_hdr o) (o_uid o) c (o_nonce o) (c2s d) (placeholders_at L (zlen (pool d))) /\
+  zlen req <= MaxPacketLen /\ zlen c = L.
+Proof.
+  intros Hp Hall Hk1 [Hage [Hu [Hn [Hh _]]]] H Hs.
+  assert (Hcl : zlen c = L) by (rewrite Hp in Hall; inversion Hall; assumption).
+  destruct (client_request_wire seal seal_len L Lfit d c rest (o_uid o) (o_nonce o) (o_hdr o) Hp Hcl Hk1 Hu Hn Hh)
+    as [Ereq Efit]. cbv zeta in Ereq, Efit.
+  unfold cexchange in H. rewrite Ereq, Hp in H. rewrite Hp in Efit |- *.
+  assert (G : forall r, Some r = Some req -> r = request_wire seal (o_hdr o) (o_uid o) c (o_nonce o) (c2s d) (placeholders_at L (zlen (c :: rest))) ->
+              req = request_wire seal (o_hdr o) (o_uid o) c (o_nonce o) (c2s d) (placeholders_at L (zlen (c :: rest))) /\
+              zlen req <= MaxPacketLen /\ zlen c = L).
+  { intros r E Er. injection E as <-. subst r. repeat split; assumption. }
+  destruct (o_fate o);
+    repeat match type of H with
+           | match ?x with _ => _ end = _ => destruct x as [[[[[? ?] ?]|] ?]|]
+           end; try discriminate; injection H as _ Eo; subst ob; cbn [ob_sent] in Hs; try discriminate;
+    exact (G _ Hs eq_refl).
+Qed.
+
+Theorem concrete_request s o s' ob req :
+  creach s -> wf_op o -> Cstep s o = Some (s', ob) -> ob_sent ob = Some req ->
+  exists c level key,
+    (pool (cs_client s) = [] /\ level = 8 \/ (exists r, pool (cs_client s) = c :: r) /\ level = zlen (pool (cs_client s))) /\
+    1 <= level <= 8 /\ zlen c = L /\
+    req = request_wire seal (o_hdr o) (o_uid o) c (o_nonce o) key (placeholders_at L level) /\
+    zlen req <= MaxPacketLen.
+Proof.
+  intros Hr Hwf H Hs. destruct (creach_inv s Hr) as [[HP [Hall Hkeys]] Hreach].
+  pose proof (reachable_inv _ id_inj L _ Hreach) as [_ [_ [_ [_ Hle]]]].
+  unfold alpha in Hle. cbn [s_pool] in Hle. rewrite map_length in Hle.
+  pose proof Hwf as [Hage [_ [_ [_ [_ [_ Hke]]]]]].
+  unfold cstep in H.
+  set (now := cs_now s + o_age o) in *.
+  set (sv0 := {| sv_prov := sv_prov (cs_server s); sv_next := (sv_next (cs_server s) + o_skip o)%nat |}) in *.
+  destruct (pool (cs_client s)) as [|c rest] eqn:Ep.
+  - destruct (o_ke o) as [[k1 k2]|] eqn:Eke.
+    + destruct Hke as [Hk1 Hk2].
+      unfold key_exchange in H. cbn [sv_prov sv_next sv0 fst snd] in H.
+      destruct (pcurrent (sv_prov (cs_server s)) now) as [[k p']|] eqn:Ecur; [|discriminate].
+      set (nx := (sv_next (cs_server s) + o_skip o)%nat) in *.
+      set (cookies := Make k nx k1 k2 keCookies) in *.
+      assert (Ecs : exists x r, cookies = x :: r) by (unfold cookies, make_cookies, keCookies; cbn [seq map]; eauto).
+      destruct Ecs as [x [r Ecs]].
+      assert (Hlen_ok : forallb cookie_len_ok cookies = true).
+      { apply forallb_forall. intros y Hy. pose proof (make_len k nx k1 k2 keCookies Hk1 Hk2) as Hf.
+        rewrite Forall_forall in Hf. unfold cookie_len_ok. rewrite (Hf y Hy). apply Z.leb_le. exact Lmax. }
+      assert (Ef : fetch (cs_client s) (KeOk cookies k1 k2) =
+                   Some ({| pool := cookies; c2s := k1; s2c := k2 |}, {| pool := r; c2s := k1; s2c := k2 |})).
+      { unfold fetch. rewrite Ep. rewrite Ecs in Hlen_ok |- *. rewrite Hlen_ok. reflexivity. }
+      rewrite Ef in H.
+      destruct (cexchange_sent _ _ _ _ {| pool := cookies; c2s := k1; s2c := k2 |} _ o x r s' ob req Ecs
+                  (make_len k nx k1 k2 keCookies Hk1 Hk2) Hk1 Hwf H Hs) as [E1 [E2 E3]].
+      exists x, 8, k1. split; [left; split; reflexivity|]. split; [lia|]. split; [exact E3|].
+      cbn [pool c2s] in E1. assert (E8 : zlen cookies = 8) by (unfold zlen, cookies; rewrite make_length; reflexivity).
+      rewrite E8 in E1. split; [exact E1|exact E2].
+    + assert (Ef : fetch (cs_client s) KeErr = None) by (unfold fetch; rewrite Ep; reflexivity).
+      rewrite Ef in H. injection H as _ Eo. subst ob. discriminate.
+  - assert (Ef : fetch (cs_client s) KeErr =
+                 Some (cs_client s, {| pool := rest; c2s := c2s (cs_client s); s2c := s2c (cs_client s) |}))
+      by (unfold fetch; rewrite Ep; cbv beta iota; rewrite Ep; reflexivity).
+    rewrite Ef in H.
+    destruct (Hkeys ltac:(congruence)) as [Hk1 Hk2].
+    assert (HallL : Forall (fun x => zlen x = L) (pool (cs_client s))).
+    { rewrite Ep. eapply Forall_mono; [|exact Hall]. intros y [k [n [_ [_ E]]]]. rewrite E. apply mk_len; assumption. }
+    destruct (cexchange_sent _ _ _ _ (cs_client s) _ o c rest s' ob req Ep HallL Hk1 Hwf H Hs) as [E1 [E2 E3]].
+    exists c, (zlen (c :: rest)), (c2s (cs_client s)).
+    split; [right; split; [eexists; reflexivity|reflexivity]|].
+    split; [unfold zlen; cbn [length] in *; lia|]. split; [exact E3|].
+    rewrite Ep in E1. split; [exact E1|exact E2].
+Qed.
 
 (* one call from a reachable state: what it does to the pool *)
 Theorem concrete_pool s o s' ob :
